@@ -7,6 +7,7 @@
 package main
 
 import (
+	"context"
 	"crypto/sha256"
 	"encoding/json"
 	"fmt"
@@ -26,9 +27,62 @@ import (
 	"github.com/pkg/errors"
 )
 
+// recStore mirrors every write/remove (so storage images can be rebuilt) and can log them.
+type recStore struct {
+	*storage.MockStorage
+	mirror map[string][]byte
+	log    []storeEv
+	rec    bool
+}
+
+type storeEv struct {
+	write bool
+	key   string
+	val   []byte
+}
+
+func newRecStore() *recStore {
+	return &recStore{MockStorage: storage.NewMockStorage(), mirror: map[string][]byte{}}
+}
+
+func (s *recStore) Write(ctx context.Context, key string, body []byte, o *storage.Options) error {
+	c := append([]byte{}, body...)
+	s.mirror[key] = c
+	if s.rec {
+		s.log = append(s.log, storeEv{true, key, c})
+	}
+	return s.MockStorage.Write(ctx, key, body, o)
+}
+
+func (s *recStore) Remove(ctx context.Context, key string) error {
+	_, had := s.mirror[key]
+	delete(s.mirror, key)
+	if s.rec && had {
+		// a Remove of a missing key returns ErrNotFound and changes nothing: not an event
+		s.log = append(s.log, storeEv{false, key, nil})
+	}
+	return s.MockStorage.Remove(ctx, key)
+}
+
+func imageStore(base map[string][]byte, evs []storeEv) *recStore {
+	st := newRecStore()
+	ctx := hx.Ctx()
+	for k, v := range base {
+		st.Write(ctx, k, v, nil)
+	}
+	for _, e := range evs {
+		if e.write {
+			st.Write(ctx, e.key, e.val, nil)
+		} else {
+			st.Remove(ctx, e.key)
+		}
+	}
+	return st
+}
+
 type state struct {
 	cfg         *headers.Config
-	store       *storage.MockStorage
+	store       *recStore
 	repo        *headers.Repository
 	subs        []<-chan *wire.BlockHeader
 	diffOn      bool
@@ -302,6 +356,31 @@ func (s *state) dump() string {
 		strings.Join(ch, ","), strings.Join(gh, ","), strings.Join(ph, ","), strings.Join(at, ","), strings.Join(ranges, ";"))
 }
 
+// evKind names a storage event canonically: M<file> main write, R<file> main remove, B<id> branch
+// file write, I index write, V invalid list write.
+func (s *state) evKind(e storeEv) string {
+	k := e.key
+	switch {
+	case k == "headers/invalid":
+		return "V"
+	case k == "headers/branches/index":
+		return "I"
+	case strings.HasPrefix(k, "headers/branches/"):
+		h, err := bitcoin.NewHash32FromStr(strings.TrimPrefix(k, "headers/branches/"))
+		if err != nil {
+			return "B?"
+		}
+		return "B" + s.idOf(*h)
+	case strings.HasPrefix(k, "headers/"):
+		n, _ := strconv.ParseInt(strings.TrimPrefix(k, "headers/"), 16, 64)
+		if e.write {
+			return fmt.Sprintf("M%d", n)
+		}
+		return fmt.Sprintf("R%d", n)
+	}
+	return "?" + k
+}
+
 func (s *state) showLoc(l []bitcoin.Hash32) string {
 	xs := make([]string, len(l))
 	for i, h := range l {
@@ -353,7 +432,7 @@ func (s *state) step(line string) string {
 		}
 		s.diffOn = a["diff"] == "on"
 		s.splitOn = a["split"] != "off"
-		s.store = storage.NewMockStorage()
+		s.store = newRecStore()
 		s.hdrs = map[int]*wire.BlockHeader{}
 		s.ids = map[bitcoin.Hash32]int{}
 		s.order = nil
@@ -496,6 +575,89 @@ func (s *state) step(line string) string {
 		s.repo = repo
 		s.subs = []<-chan *wire.BlockHeader{s.repo.GetNewHeadersAvailableChannel()}
 		return op + " => r=ok " + s.tip()
+	case "crashsave", "crashclean":
+		// run Save / Clean recording the storage events, then load every prefix image
+		base := map[string][]byte{}
+		for k, v := range s.store.mirror {
+			base[k] = v
+		}
+		s.store.log = nil
+		s.store.rec = true
+		out, ptxt := hx.Guard(func() string {
+			if verb == "crashsave" {
+				return "r=" + stage("save", s.repo.Save(ctx))
+			}
+			d, ok := a.Int("d")
+			if !ok {
+				return "r=" + stage("clean", s.repo.Clean(ctx))
+			}
+			return "r=" + stage("clean", s.repo.CleanWithDepth(ctx, int(d)))
+		})
+		s.store.rec = false
+		if out == "panic" {
+			return op + " => r=panic #" + strings.ReplaceAll(ptxt, " ", "_")
+		}
+		evs := append([]storeEv{}, s.store.log...)
+		var kinds []string
+		for _, e := range evs {
+			kinds = append(kinds, s.evKind(e))
+		}
+		ld, hasLd := a.Int("ld")
+		var res []string
+		for k := 0; k <= len(evs); k++ {
+			img := imageStore(base, evs[:k])
+			repo := headers.NewRepository(s.cfg, img)
+			if !s.diffOn {
+				repo.DisableDifficulty()
+			}
+			if !s.splitOn {
+				repo.DisableSplitProtection()
+			}
+			r, _ := hx.Guard(func() string {
+				var err error
+				if hasLd {
+					err = repo.LoadWithDepth(ctx, int(ld))
+				} else {
+					err = repo.Load(ctx)
+				}
+				if err != nil {
+					return "err"
+				}
+				return "ok"
+			})
+			if r != "ok" {
+				res = append(res, fmt.Sprintf("%d:%s", k, r))
+				continue
+			}
+			info, _ := hx.Guard(func() string {
+				h := repo.Height()
+				lh := repo.LastHash()
+				linked := 1
+				var prev *bitcoin.Hash32
+				for i := 0; i <= h; i++ {
+					hd, err := repo.Header(ctx, i)
+					if err != nil {
+						linked = 0
+						break
+					}
+					if i == 0 {
+						if !hd.BlockHash().Equal(&s.genesisHash) {
+							linked = 0
+						}
+					} else if !hd.PrevBlock.Equal(prev) {
+						linked = 0
+						break
+					}
+					prev = hd.BlockHash()
+				}
+				if linked == 1 && (prev == nil || !prev.Equal(&lh)) {
+					linked = 0
+				}
+				return fmt.Sprintf("ok:%d:%s:%s:%d", h, s.idOf(lh), repo.AccumulatedWork().String(), linked)
+			})
+			res = append(res, fmt.Sprintf("%d:%s", k, info))
+		}
+		return fmt.Sprintf("%s => %s %s ev=%s p=%s", op, out, s.tip(), hx.List(kinds), hx.List(res))
 	case "subscribe":
 		s.subs = append(s.subs, s.repo.GetNewHeadersAvailableChannel())
 		return op + " => ok"
@@ -518,6 +680,18 @@ func (s *state) step(line string) string {
 			return op + " => panic #" + strings.ReplaceAll(ptxt, " ", "_")
 		}
 		return op + " => " + out
+	case "verify":
+		id, ok := a.Int("id")
+		h, ok2 := s.hdrs[int(id)]
+		if !ok || !ok2 {
+			break
+		}
+		err := s.repo.VerifyHeader(ctx, h)
+		v := verdict(err)
+		if err != nil && strings.Contains(err.Error(), "Header after genesis") {
+			v = "err:after-genesis"
+		}
+		return op + " => v=" + v
 	case "vloc":
 		l, _ := s.repo.GetVerifyOnlyLocatorHashes(ctx)
 		return op + " => " + s.showLoc(l)
